@@ -86,3 +86,61 @@ package exec
 
 //@ extern func exec.(*fileStore).path
 //@   modifies nothing
+
+// ---- task state setters ----
+
+//@ func exec.(*Task).Set
+//@   requires t != nil
+//@   ensures  t.state == state && t.err == old(t.err)
+//@   modifies t.state, t.waitc
+
+//@ func exec.(*Task).Error
+//@   requires t != nil && err != nil
+//@   ensures  t.state == TaskErr && t.err == err
+//@   modifies t.state, t.err, t.waitc
+
+// ---- local executor (C14 limiter pairing, C20 scope reset, C12 stored-iff-OK, C06 classification) ----
+
+//@ extern func exec.(*localExecutor).depReaders (ctx, task) (in, err)
+//@   may_panic
+//@   modifies unknown
+//@   preserves Limiter.held, Limiter.nacq, Limiter.lastAcq, localExecutor.limiter, localExecutor.sess, localExecutor.buffers, Session.p, Task.Pragma, nBufferOutput, lastBufferErr
+
+//@ extern func exec.bufferOutput (ctx, task, out) (buf, err)
+//@   ensures  nBufferOutput == old(nBufferOutput) + 1 && lastBufferErr == err
+//@   modifies unknown
+//@   preserves Limiter.held, Limiter.nacq, Limiter.lastAcq, localExecutor.limiter, localExecutor.sess, localExecutor.buffers, Session.p, Task.Pragma
+
+//@ spec func storedIfOK(l *localExecutor, task *Task) bool = implies(task.state == TaskOk, has(l.buffers, task))
+
+//@ func exec.(*localExecutor).Run
+//@   requires l != nil && task != nil && l.limiter != nil && l.sess != nil && l.buffers != nil && storedIfOK(l, task)
+//@   may_panic
+//@   always_ensures procs-returned: l.limiter.held == old(l.limiter.held)
+//@   ensures  one-or-all: implies(l.limiter.nacq > old(l.limiter.nacq), l.limiter.nacq == old(l.limiter.nacq) + 1 && l.limiter.lastAcq == old(ite(exclusivePragma(task.Pragma), l.sess.p, 1)))
+//@   ensures  ok-means-stored: storedIfOK(l, task)
+//@   ensures  success: implies(nBufferOutput > old(nBufferOutput) && lastBufferErr == nil, task.state == TaskOk && has(l.buffers, task))
+//@   ensures  fatal-means-err: implies(nBufferOutput > old(nBufferOutput) && lastBufferErr != nil && isFatal(lastBufferErr), task.state == TaskErr && task.err == lastBufferErr)
+//@   ensures  other-means-lost: implies(nBufferOutput > old(nBufferOutput) && lastBufferErr != nil && !isFatal(lastBufferErr), task.state == TaskLost && task.err == lastBufferErr)
+//@   modifies unknown
+
+// ---- C12: local executor keeps "OK implies output stored"; discarded outputs read as errors ----
+
+//@ spec func sharedCombiner(task *Task) bool = !funcIsNil(task.Combiner) && task.CombineKey != ""
+
+//@ func exec.(*localExecutor).Discard (ctx, task)
+//@   requires l != nil && task != nil && l.buffers != nil && storedIfOK(l, task)
+//@   ensures  discarded: implies(old(task.state) == TaskOk && !sharedCombiner(task), task.state == TaskLost && !has(l.buffers, task))
+//@   ensures  untouched-otherwise: implies(old(task.state) != TaskOk || sharedCombiner(task), task.state == old(task.state) && has(l.buffers, task) == old(has(l.buffers, task)))
+//@   ensures  ok-means-stored: storedIfOK(l, task)
+//@   modifies task.state, task.waitc, l.buffers[:], l.mu
+
+//@ extern func exec.taskBuffer.Reader (partition) (r)
+//@   ensures r != nil
+//@   modifies nothing
+
+//@ func exec.(*localExecutor).Reader (task, partition)
+//@   requires l != nil
+//@   ensures  missing-is-error: implies(!has(l.buffers, task), hastype(result, sliceio.ReaderWithCloseFunc) && unbox(result, sliceio.ReaderWithCloseFunc).Reader != nil && unbox(result, sliceio.ReaderWithCloseFunc).Reader.errOnly)
+//@   ensures  result != nil
+//@   modifies l.mu, SReader.errOnly
